@@ -13,15 +13,21 @@ import desper.math as dmath
 
 
 def dec(tok, dim):
-    if tok.startswith('p'):
+    # vectors: `p…` a Vec2/Vec3, `t…` a plain tuple, `l…` a list (the setters document "a vector or a tuple")
+    if tok[0] in 'ptl':
         xs = [int(x) for x in tok[1:].split('_')]
+        if tok[0] == 't':
+            return tuple(xs)
+        if tok[0] == 'l':
+            return list(xs)
         return {2: dmath.Vec2, 3: dmath.Vec3}[len(xs)](*xs)
     return int(tok) / 2.0
 
 
 def enc(v):
-    if isinstance(v, tuple):
-        return 'p' + '_'.join(str(int(x)) if float(x).is_integer() else repr(x) for x in v)
+    if isinstance(v, (tuple, list)):
+        kind = 'l' if isinstance(v, list) else 'p' if isinstance(v, (dmath.Vec2, dmath.Vec3, dmath.Vec4)) else 't'
+        return kind + '_'.join(str(int(x)) if float(x).is_integer() else repr(x) for x in v)
     if isinstance(v, (int, float)):
         d = v * 2
         return str(int(d)) if float(d).is_integer() else 'f' + repr(v)
@@ -48,9 +54,9 @@ class Run(D.Run):
             # token differs from the stored one and is judged by the oracle; the marker is for an equal
             # COPY handed to the listener instead of the stored object)
             cur = getattr(self.ts[self.cur], self.setting)
-            same = args[0] is cur or not isinstance(args[0], tuple) or enc(args[0]) != enc(cur)
+            same = args[0] is cur or not isinstance(args[0], (tuple, list)) or enc(args[0]) != enc(cur)
             return enc(args[0]) + ('' if same else '!not-the-stored-value')
-        if len(args) == 1 and not kwargs and isinstance(args[0], (tuple, float)):
+        if len(args) == 1 and not kwargs and isinstance(args[0], (tuple, list, float)):
             return enc(args[0])
         return D.enc_args(args, kwargs)
 
@@ -65,7 +71,7 @@ class Run(D.Run):
                 for name, tok in zip(('position', 'rotation', 'scale'), t[2:5]):
                     if tok != '-':
                         v = dec(tok, dim)
-                        kw[name] = tuple(v) if isinstance(v, tuple) else v
+                        kw[name] = v
                 try:
                     self.ts.append(cls(**kw))
                 except Exception as e:        # noqa
